@@ -82,7 +82,8 @@ fn main() {
     let mode = args.get(1).map(|s| s.as_str()).unwrap_or("");
     let stdin = io::stdin();
     let stdout = io::stdout();
-    let mut out = io::BufWriter::new(stdout.lock());
+    // line-buffered: when a case kills the process (abort, stack overflow) the caller knows how many were answered
+    let mut out = io::LineWriter::new(stdout.lock());
     match mode {
         // HEX -> HEX
         "strip" => {
